@@ -67,8 +67,15 @@ RelOk(ev) ==
     [] ev.rel = "temporal<=base" -> ev.lo <= ev.hi
     [] OTHER -> FALSE
 
+\* the outer (temporal) step of the environmental equation on an observed inner score
+OuterVerdict(ev) ==
+  LET x == TemporalOf(ev.ver, ev.inner, Char(ev.t, 1), Char(ev.t, 2), Char(ev.t, 3))
+  IN IF ev.obs = x /\ ev.ex THEN "ok"
+     ELSE "score:outer step expected " \o TenthStr(x) \o " observed " \o ev.str
+
 Verdict(ev) ==
   CASE ev.k = "v3" /\ Pid \in {"C01", "C02", "C03"} -> ScoreVerdict(ev)
+    [] ev.k = "v3t" -> IF Pid = "C03" THEN OuterVerdict(ev) ELSE "ok"
     [] ev.k = "v3" /\ Pid = "C06" -> GridVerdict(ev)
     [] ev.k = "rel" -> IF RelOk(ev) THEN "ok" ELSE "relation:" \o ev.rel
     [] OTHER -> "harness:unknown event"
